@@ -42,14 +42,18 @@ Definition value_stack_covered : bool :=
   strs_eqb gen_variadic_len_writers ["eval.go:eval:stack.variadicLen = int(code[pc+1])"] &&
   strs_eqb gen_variadic_len_readers ["quasigo.go:ValueStack.PopVariadic"].
 
+(* the matcher states get the types.Info of the current run unconditionally *)
+Definition types_set_per_run (f : string) : bool :=
+  match find (fun p => String.eqb (fst p) f) gen_matcher_types_set_per_run with Some p => snd p | None => false end.
+
 Definition reset_evidence (c : string) : bool :=
   if String.eqb c "carried:nodePath" then gen_state_reset_when_reused && gen_reset_truncates_node_path
   else if String.eqb c "carried:evalEnv" then
     gen_state_reset_when_reused && gen_reset_resets_eval_stack && gen_quasigo_call_truncates_stack &&
     value_stack_covered && policy_is_always variadic_len_policy
   else if String.eqb c "carried:typematchState" then gen_typematch_resets_bindings_per_match
-  else if String.eqb c "carried:gogrepSubState" then policy_is_always contains_preset_policy
-  else if String.eqb c "carried:gogrepState" then true        (* gogrep's MatchNode resets pc / captures itself: trusted *)
+  else if String.eqb c "carried:gogrepSubState" then policy_is_always contains_preset_policy && types_set_per_run "gogrepSubState"
+  else if String.eqb c "carried:gogrepState" then types_set_per_run "gogrepState"   (* pc / captures: gogrep's MatchNode resets them itself (trusted) *)
   else false.
 Lemma carried_all_reset : forallb reset_evidence (carried_of gen_rr_literal ++ carried_of gen_fp_literal) = true.
 Proof. vm_compute. reflexivity. Qed.
